@@ -102,6 +102,13 @@ func c03Config(ci int, unsafeMode bool) map[string]interface{} {
 	if unsafeMode {
 		c["unsafe_batch"] = true
 	}
+	if ci == 100 {
+		// small flush groups and a napping persister: several unflushed segments meet in one persister round and
+		// are split into groups with a remainder
+		c["scorchPersisterOptions"] = map[string]interface{}{"NumPersisterWorkers": 2, "MaxSizeInMemoryMergePerWorker": 1,
+			"PersisterNapTimeMSec": 15, "PersisterNapUnderNumFiles": 1000}
+		return c
+	}
 	switch ci % 4 {
 	case 1:
 		c["scorchPersisterOptions"] = map[string]interface{}{"NumPersisterWorkers": 3, "MaxSizeInMemoryMergePerWorker": 1 << 20}
@@ -338,6 +345,10 @@ func runC03(t *Trace, r *Rng, tier string, _ []string) {
 			mode = "unsafe"
 		}
 		ci := r.Intn(12)
+		if wl%8 >= 6 { // three writers against small flush groups
+			W = 3
+			ci = 100
+		}
 		cat := mode
 		t.Add(fmt.Sprintf("workloads:%s-conf%d", mode, ci%4), 1)
 		ks := make([]string, W)
@@ -363,7 +374,12 @@ func runC03(t *Trace, r *Rng, tier string, _ []string) {
 				if r.Chance(40) { // the window between a commit and the next persist round
 					name = []string{"persist:after-commit", "persist:after-sync"}[r.Intn(2)]
 				}
-				crash = fmt.Sprintf("%s#%d", name, 1+r.Intn(6))
+				occ := 1 + r.Intn(6)
+				if ci == 100 && r.Chance(70) { // between the commit of a round that split its segments and the next commit
+					name = []string{"persist:after-commit", "persist:after-sync", "persist:files-written", "persist:before-commit"}[r.Intn(4)]
+					occ = 2 + r.Intn(8)
+				}
+				crash = fmt.Sprintf("%s#%d", name, occ)
 				how = name
 			}
 			maxBatch := 30 + r.Intn(60)
